@@ -489,7 +489,7 @@ def feature_axis(ctx: Ctx):
             if not (isinstance(node, ast.Call) and ast.unparse(node.func) in ("torch.stack", "torch.cat") and node.args):
                 continue
             seq = node.args[0]
-            if not isinstance(seq, (ast.List, ast.Tuple)) or not any("td[" in ast.unparse(e) for e in seq.elts):
+            if not isinstance(seq, (ast.List, ast.Tuple)) or not any("td[" in ast.unparse(e) or "td.get(" in ast.unparse(e) for e in seq.elts):
                 continue
             dim = node.args[1] if len(node.args) > 1 else next((k.value for k in node.keywords if k.arg == "dim"), None)
             fn, _ = ctx.repo.locate(rel, node.lineno, node.col_offset, getattr(node, "end_lineno", 0), getattr(node, "end_col_offset", 0))
